@@ -160,9 +160,40 @@ def check_basis_case(ctx, rng, n, dt, kind, method, gen):
     return (method, est_kind, kind, str(dt), n > 8)
 
 
+def known_inputs(ctx):
+    """Regression inputs of fixed findings.  D12: a 64 x 64 float32 Gram matrix of rank 19 with dead coordinates on which
+    torch.linalg.eigh returns NaN without raising."""
+    import matrix_functions as mf
+    import matrix_functions_types as mt
+    from pathlib import Path
+    A = torch.load(Path(__file__).resolve().parent.parent / "data" / "eigh_silent_nan_f32_64.pt", weights_only=True)
+    n = A.shape[0]
+    Ad = A.to(F64)
+    scale = float(Ad.abs().max())
+    for label, q in (("eigh", lambda: mf.matrix_eigenvectors(A, eigenvector_computation_config=mt.EighEigenvectorConfig())),
+                     ("qr_zero_estimate", lambda: mf.matrix_eigenvectors(A, eigenvectors_estimate=torch.zeros_like(A),
+                                                                          eigenvector_computation_config=mt.QRConfig()))):
+        ctx.add("evaluations")
+        Q = q().to(F64)
+        bad = None
+        if not bool(torch.isfinite(Q).all()):
+            bad = ("finite", "an orthonormal basis", f"{int((~torch.isfinite(Q)).sum())} NaN/Inf entries")
+        elif float((Q.T @ Q - torch.eye(n, dtype=F64)).abs().max()) > 1e-4:
+            bad = ("orthonormal", "|Q^T Q - I| <= 1e-4", float((Q.T @ Q - torch.eye(n, dtype=F64)).abs().max()))
+        else:
+            d = Q.T @ Ad @ Q
+            off = float((d - torch.diag(torch.diag(d))).abs().max())
+            if off > 1e-4 * scale:
+                bad = ("diagonalises", f"offdiag <= {1e-4 * scale:.2e}", off)
+        if bad:
+            ctx.violation(f"matrix_eigenvectors ({label}) on the float32 rank-19 matrix with dead coordinates (harness/data/eigh_silent_nan_f32_64.pt): "
+                          f"{bad[0]}: expected {bad[1]}, observed {bad[2]}", {"kind": "eigenvectors", "clause": bad[0], "method": label}, {"known_input": "eigh_silent_nan_f32_64"})
+
+
 def run(ctx):
     quick = ctx.tier == "quick"
     rng = random.Random(ctx.seed * 7919 + 12)
+    known_inputs(ctx)
     mp.run_mc(ctx, quick)
     cases = dispatch_cases()
     exp = mp.oracle_eval(cases, "C12-disp")
